@@ -201,6 +201,8 @@ package crlrepository
 //@   ensures err == nil ==> ret != nil
 //@   ensures[C09] store_error_is_error: called(CRLStore.GetCertRevocationStatus#1) && res(CRLStore.GetCertRevocationStatus#1, 1) != nil ==> err != nil
 //@   ensures[C01] listed_means_revoked: called(CRLStore.GetCertRevocationStatus#1) && res(CRLStore.GetCertRevocationStatus#1, 1) == nil && res(CRLStore.GetCertRevocationStatus#1, 0).Revoked ==> err == nil && ret.Revoked
+//@   ensures[C04,C11,C16] revoked_only_while_in_force: err == nil && ret.Revoked ==> called(Repository.getEntrySync#1) && res(Repository.getEntrySync#1) != nil && res(Repository.getEntrySync#1).Loaded
+//@   ensures[C04,C11,C16] unloaded_entry_store_is_not_consulted: called(CRLStore.GetCertRevocationStatus#1) ==> res(Repository.getEntrySync#1) != nil && res(Repository.getEntrySync#1).Loaded
 //@   ensures[C11] revoked_only_from_loaded_store: err == nil && ret.Revoked ==> called(CRLStore.GetCertRevocationStatus#1) && res(CRLStore.GetCertRevocationStatus#1, 1) == nil && res(CRLStore.GetCertRevocationStatus#1, 0).Revoked
 //@   ensures[C01,C09] loaded_entry_is_consulted: called(Repository.getEntrySync#1) && res(Repository.getEntrySync#1) != nil && called(RWMutex.RLock#1) && res(Repository.getEntrySync#1).Loaded ==> called(CRLStore.GetCertRevocationStatus#1)
 
